@@ -423,11 +423,13 @@ def _init_worker():
     silence()
 
 
-def map_cases(func, args: List, processes: Optional[int] = None) -> Iterator:
+def map_cases(
+    func, args: List, processes: Optional[int] = None, chunksize: int = 8
+) -> Iterator:
     processes = processes or min(16, os.cpu_count() or 1)
     ctx = multiprocessing.get_context("fork")
     with ctx.Pool(processes, initializer=_init_worker) as pool:
-        yield from pool.imap(func, args, chunksize=8)
+        yield from pool.imap(func, args, chunksize=chunksize)
 
 
 def dedupe(violations: List[dict], limit: int = 20) -> List[dict]:
